@@ -161,3 +161,104 @@ Qed.
 
 Lemma mi_eqb_eq a b : mi_eqb a b = true <-> a = b.
 Proof. apply index_eqb_eq. Qed.
+
+(* ---------------------------------------------------------------------- *)
+(* Splittings into several parts along a chain of products (reversed order:
+   the head of every list belongs to the LAST factor).
+
+   pathsR mids n lists the pairs (ks, ps): ks = intermediate block indices
+   (bounded by mids), ps = one multi-order per factor, summing to n. *)
+
+Fixpoint msum (len : nat) (ps : list mi) : mi :=
+  match ps with
+  | [] => repeat 0 len
+  | p :: r => madd p (msum len r)
+  end.
+
+Fixpoint pathsR (mids : list nat) (n : mi) : list (list nat * list mi) :=
+  match mids with
+  | [] => [([], [n])]
+  | m :: r =>
+      flat_map (fun k =>
+        flat_map (fun ab => map (fun p => (k :: fst p, snd ab :: snd p)) (pathsR r (fst ab)))
+                 (splits2 n))
+        (seq 0 m)
+  end.
+
+Lemma madd_comm a b : madd a b = madd b a.
+Proof.
+  revert b. induction a as [|x a IH]; intros [|y b]; cbn; auto. f_equal. lia. apply IH.
+Qed.
+
+Lemma madd_zero_r p : madd p (repeat 0 (length p)) = p.
+Proof. induction p; cbn; auto. f_equal; auto. Qed.
+
+Lemma madd_length a b : length a = length b -> length (madd a b) = length a.
+Proof.
+  revert b. induction a as [|x a IH]; intros [|y b]; cbn; try discriminate; auto.
+Qed.
+
+Lemma msum_length len ps :
+  Forall (fun p => length p = len) ps -> length (msum len ps) = len.
+Proof.
+  induction 1; cbn. apply repeat_length. rewrite madd_length; auto. congruence.
+Qed.
+
+Definition path_ok (mids : list nat) (n : mi) (ks : list nat) (ps : list mi) : Prop :=
+  Forall2 lt ks mids /\
+  length ps = S (length mids) /\
+  Forall (fun p => length p = length n) ps /\
+  msum (length n) ps = n.
+
+Lemma in_pathsR mids : forall n ks ps,
+  In (ks, ps) (pathsR mids n) <-> path_ok mids n ks ps.
+Proof.
+  unfold path_ok. induction mids as [|m r IH]; intros n ks ps; cbn [pathsR].
+  - split.
+    + intros [E|[]]. inversion E; subst. split; [constructor|]. split; [reflexivity|].
+      split; [repeat constructor|]. cbn. apply madd_zero_r.
+    + intros (F2 & L & Fl & S). inversion F2; subst.
+      destruct ps as [|p [|? ?]]; try discriminate. inversion Fl; subst.
+      cbn in S. rewrite <- H1, madd_zero_r in S. subst. now left.
+  - rewrite in_flat_map. split.
+    + intros (k & Hk & H). apply in_seq in Hk. apply in_flat_map in H.
+      destruct H as ([a b] & Hab & H). apply in_map_iff in H. destruct H as ([ks' ps'] & E & H).
+      cbn [fst snd] in *. inversion E; subst. apply IH in H. destruct H as (F2 & L & Fl & S).
+      apply in_splits2 in Hab. destruct Hab as [Lab Sab].
+      assert (length n = length a) as Ln by (rewrite <- Sab; now apply madd_length).
+      repeat split.
+      * constructor; auto. lia.
+      * cbn. now rewrite L.
+      * constructor. congruence. rewrite Ln. exact Fl.
+      * cbn. rewrite Ln, S. now rewrite madd_comm.
+    + intros (F2 & L & Fl & S). inversion F2 as [|k ? ks' ? Hk F2']; subst.
+      destruct ps as [|b ps']; try discriminate. inversion Fl as [|? ? Lb Fl']; subst.
+      cbn in S, L. set (a := msum (length n) ps') in *.
+      assert (length a = length n) as La by (apply msum_length; auto).
+      exists k. split. apply in_seq. lia. apply in_flat_map. exists (a, b). split.
+      * apply in_splits2. split. congruence. now rewrite madd_comm.
+      * apply in_map_iff. exists (ks', ps'). split; auto. apply IH. cbn [fst].
+        split; [exact F2'|]. split; [lia|]. split; rewrite La; auto.
+Qed.
+
+Lemma NoDup_pathsR mids : forall n, NoDup (pathsR mids n).
+Proof.
+  induction mids as [|m r IH]; intros n; cbn [pathsR].
+  - constructor. intros []. constructor.
+  - apply nodup_flat_map.
+    + apply seq_NoDup.
+    + intros k _. apply nodup_flat_map.
+      * apply NoDup_splits2.
+      * intros [a b] _. apply nodup_map_inj; auto.
+        intros [? ?] [? ?] _ _ E. cbn in E. now inversion E.
+      * intros [a b] [a' b'] x Hab Hab' Hx Hx'. cbn [fst snd] in *.
+        apply in_map_iff in Hx, Hx'. destruct Hx as ([ks ps] & <- & Hx), Hx' as ([ks' ps'] & E & Hx').
+        cbn [fst snd] in *. inversion E; subst.
+        apply in_pathsR in Hx, Hx'. destruct Hx as (_ & _ & _ & S), Hx' as (_ & _ & _ & S').
+        apply in_splits2 in Hab, Hab'. destruct Hab as [L _], Hab' as [L' _].
+        f_equal. rewrite <- S, <- S'. now rewrite L, L'.
+    + intros k k' x _ _ Hx Hx'. apply in_flat_map in Hx, Hx'.
+      destruct Hx as (ab & _ & Hx), Hx' as (ab' & _ & Hx').
+      apply in_map_iff in Hx, Hx'. destruct Hx as (p & <- & _), Hx' as (p' & E & _).
+      now inversion E.
+Qed.
